@@ -380,3 +380,484 @@ Proof.
   - eexists. split; [vm_compute; reflexivity|].
     intros b Hb. vm_compute in Hb. destruct Hb as [<-|[<-|[]]]; split; vm_compute; reflexivity.
 Qed.
+
+(** ** (e) the readers plugged in: channel independence stated from the TEXT.
+
+    [Proofs/ChannelReaders.v] instantiates the Section variables [read_nt],
+    [read_ttl] of [Model/Channels.v] with the reader models of C06
+    ([nt_reader allow] = [NtReader.run_lines], converted by [rd_of_doc]) and
+    C07 ([ttl_reader] = [TtlReader.process_lines] from the initial state + the
+    end-of-input check).  Nothing but the codecs (gunzip, unxz, unzip), rdflib
+    and CPython's [float()] on the TSV channel stays abstract.
+
+    Abnormal outcomes of a reader are [inr] of an injective encoding
+    ([C08_reader_outcomes_kept_apart]); a hang of the N-Triples loop is one of
+    them: for the extraction it is [None] ("nothing is delivered"), as an
+    exception is. *)
+From Shexer Require Import Proofs.ChannelReaders.
+From Shexer Require Model.NtReader Spec.NtSyntax Spec.NtDom Model.TtlReader Spec.TtlSyntax Spec.TtlDomain.
+From Shexer Require Proofs.ShexKeys Proofs.EndToEnd2 Proofs.EndToEnd3 Proofs.Bin64Round.
+
+Theorem C08_reader_outcomes_kept_apart :
+  (forall a b, nt_abort a = nt_abort b -> a = b) /\ (forall a b, ttl_abort a = ttl_abort b -> a = b).
+Proof. exact (conj nt_abort_inj ttl_abort_inj). Qed.
+Print Assumptions C08_reader_outcomes_kept_apart.
+
+(** the conversion commutes with C06's document loop: reading is a fold of
+    one-line results ([rd_of_nt_line]) *)
+Theorem C08_nt_reader_is_fold : forall allow ls, nt_reader allow ls = nt_fold allow ls.
+Proof. exact nt_reader_fold. Qed.
+Print Assumptions C08_nt_reader_is_fold.
+
+(** the hypotheses of (a), discharged for the N-Triples reader of C06, for
+    ALL lines (valid or not): a line that is not three tokens bumps the error
+    counter, a line on which the reader raises or hangs ends the document at
+    that line on every channel alike, a blank line is a discarded line
+    (counted, no triple) -- so [blanks_harmless] needs no side condition *)
+Theorem C08_nt_line_compositional : forall allow, line_compositional (nt_reader allow).
+Proof. exact nt_reader_compositional. Qed.
+Print Assumptions C08_nt_line_compositional.
+
+Theorem C08_nt_blank_silent : forall allow, blank_silent (nt_reader allow).
+Proof. exact nt_reader_blank_silent. Qed.
+Print Assumptions C08_nt_blank_silent.
+
+Theorem C08_nt_blanks_harmless : forall allow ls, blanks_harmless (nt_reader allow) ls.
+Proof. exact nt_reader_blanks_harmless. Qed.
+Print Assumptions C08_nt_blanks_harmless.
+
+(** the N-Triples channel over a raw string IS C06's [read_raw_string] *)
+Theorem C08_nt_channel_is_C06 :
+  forall pyfloat read_ttl gunzip unxz unzip rdf_parse allow o doc,
+    channel pyfloat (nt_reader allow) read_ttl gunzip unxz unzip rdf_parse o (Str "nt") None (SRaw doc)
+    = rd_of_doc (NtReader.read_raw_string allow doc).
+Proof. exact nt_chan_raw. Qed.
+Print Assumptions C08_nt_channel_is_C06.
+
+(** (a) for N-Triples, no hypothesis on the reader left: any lines, any
+    partition into plain / gz / xz files *)
+Theorem C08_partition_invisible_nt :
+  forall pyfloat allow read_ttl gunzip unxz unzip rdf_parse o o' cm lss stored,
+    cm_plain cm -> Forall (Forall line_ok) lss ->
+    Forall2 (stored_as gunzip unxz cm) (map render_lines lss) stored ->
+    rd_stream (channel pyfloat (nt_reader allow) read_ttl gunzip unxz unzip rdf_parse o (Str "nt") cm (SFiles stored))
+    = rd_stream (channel pyfloat (nt_reader allow) read_ttl gunzip unxz unzip rdf_parse o' (Str "nt") None
+                         (SRaw (render_lines (List.concat lss)))).
+Proof. exact partition_invisible_nt_files. Qed.
+Print Assumptions C08_partition_invisible_nt.
+
+Theorem C08_partition_invisible_nt_file :
+  forall pyfloat allow read_ttl gunzip unxz unzip rdf_parse o o' cm ls st,
+    cm_plain cm -> Forall line_ok ls -> stored_as gunzip unxz cm (render_lines ls) st ->
+    rd_stream (channel pyfloat (nt_reader allow) read_ttl gunzip unxz unzip rdf_parse o (Str "nt") cm (SFile st))
+    = rd_stream (channel pyfloat (nt_reader allow) read_ttl gunzip unxz unzip rdf_parse o' (Str "nt") None
+                         (SRaw (render_lines ls))).
+Proof. exact partition_invisible_nt_file. Qed.
+Print Assumptions C08_partition_invisible_nt_file.
+
+Theorem C08_partition_invisible_nt_zip :
+  forall pyfloat allow read_ttl gunzip unxz unzip rdf_parse o o' archive lss,
+    Forall (Forall line_ok) lss -> archive_holds unzip archive lss ->
+    rd_stream (channel pyfloat (nt_reader allow) read_ttl gunzip unxz unzip rdf_parse o (Str "nt") (Some c_ZIP) (SFile archive))
+    = rd_stream (channel pyfloat (nt_reader allow) read_ttl gunzip unxz unzip rdf_parse o' (Str "nt") None
+                         (SRaw (render_lines (List.concat lss)))).
+Proof. exact partition_invisible_nt_zip. Qed.
+Print Assumptions C08_partition_invisible_nt_zip.
+
+Theorem C08_partition_invisible_nt_zips :
+  forall pyfloat allow read_ttl gunzip unxz unzip rdf_parse o o' archives lsss,
+    Forall (Forall (Forall line_ok)) lsss -> Forall2 (archive_holds unzip) archives lsss ->
+    rd_stream (channel pyfloat (nt_reader allow) read_ttl gunzip unxz unzip rdf_parse o (Str "nt") (Some c_ZIP) (SFiles archives))
+    = rd_stream (channel pyfloat (nt_reader allow) read_ttl gunzip unxz unzip rdf_parse o' (Str "nt") None
+                         (SRaw (render_lines (List.concat (List.concat lsss))))).
+Proof. exact partition_invisible_nt_zips. Qed.
+Print Assumptions C08_partition_invisible_nt_zips.
+
+(** the property's own form for N-Triples: for EVERY document text (any
+    lines) every partition into files / zip members / archives and every
+    documented compression gives the same outcome of the extraction -- the
+    shapes, an error of the pipeline, or [None] when the reader aborts -- as
+    the single raw string, over two independently built yielders *)
+Theorem C08_channel_independent_nt :
+  forall pyfloat allow read_ttl gunzip unxz unzip rdf_parse fa c thr (o1 o2 o1' o2' : porc),
+    let P := passes pyfloat (nt_reader allow) read_ttl gunzip unxz unzip rdf_parse in
+    (forall cm lss stored,
+        cm_plain cm -> Forall (Forall line_ok) lss ->
+        Forall2 (stored_as gunzip unxz cm) (map render_lines lss) stored ->
+        run_over_passes fa c thr (P o1 o2 (Str "nt") cm (SFiles stored))
+        = run_over_passes fa c thr (P o1' o2' (Str "nt") None (SRaw (render_lines (List.concat lss))))) /\
+    (forall cm ls st,
+        cm_plain cm -> Forall line_ok ls -> stored_as gunzip unxz cm (render_lines ls) st ->
+        run_over_passes fa c thr (P o1 o2 (Str "nt") cm (SFile st))
+        = run_over_passes fa c thr (P o1' o2' (Str "nt") None (SRaw (render_lines ls)))) /\
+    (forall archive lss,
+        Forall (Forall line_ok) lss -> archive_holds unzip archive lss ->
+        run_over_passes fa c thr (P o1 o2 (Str "nt") (Some c_ZIP) (SFile archive))
+        = run_over_passes fa c thr (P o1' o2' (Str "nt") None (SRaw (render_lines (List.concat lss))))) /\
+    (forall archives lsss,
+        Forall (Forall (Forall line_ok)) lsss -> Forall2 (archive_holds unzip) archives lsss ->
+        run_over_passes fa c thr (P o1 o2 (Str "nt") (Some c_ZIP) (SFiles archives))
+        = run_over_passes fa c thr (P o1' o2' (Str "nt") None (SRaw (render_lines (List.concat (List.concat lsss)))))).
+Proof. exact channel_independent_nt. Qed.
+Print Assumptions C08_channel_independent_nt.
+
+(** ** (f) the pipeline sees a literal through its datatype only: two graphs
+    that differ in lexical forms give the same shapes (and ShExC text).  This
+    is what lets C06 / C07 -- which compare node kinds, identifiers and
+    datatypes, not lexical forms -- be composed with the pipeline. *)
+Theorem C08_run_shapes_erase_lex :
+  forall fa c thr g, run_shapes fa c thr (map erase_lex g) = run_shapes fa c thr g.
+Proof. exact run_shapes_erase_lex. Qed.
+Print Assumptions C08_run_shapes_erase_lex.
+
+Theorem C08_run_shapes2_erase_lex :
+  forall fa c thr g1 g2, run_shapes2 fa c thr (map erase_lex g1) (map erase_lex g2) = run_shapes2 fa c thr g1 g2.
+Proof. exact run_shapes2_erase_lex. Qed.
+Print Assumptions C08_run_shapes2_erase_lex.
+
+Theorem C08_run_shexc_erase_lex :
+  forall fa c thr g, run_shexc fa c thr (map erase_lex g) = run_shexc fa c thr g.
+Proof. exact run_shexc_erase_lex. Qed.
+Print Assumptions C08_run_shexc_erase_lex.
+
+Theorem C08_track_profile_erase_lex :
+  (forall tau m cap g, track tau m cap (map erase_lex g) = track tau m cap g) /\
+  (forall c I g, profile c I (map erase_lex g) = profile c I g).
+Proof. exact (conj track_erase_lex profile_erase_lex). Qed.
+Print Assumptions C08_track_profile_erase_lex.
+
+(** ** (g) from the TEXT to the abstract graph, N-Triples: C06 ; C08 ; pipeline.
+    [nt_graph ts] is C06's [kinded] of every statement as a [Spec.Rdf.triple]
+    ([C08_nt_graph_is_kinded]), lexical forms erased. *)
+Theorem C08_nt_graph_is_kinded : forall t, triple_of_k (NtSyntax.kinded t) = Some (nt_triple t).
+Proof. exact triple_of_kinded. Qed.
+Print Assumptions C08_nt_graph_is_kinded.
+
+Theorem C08_nt_text_to_graph :
+  forall pyfloat allow read_ttl gunzip unxz unzip rdf_parse fa c thr (o1 o2 : porc)
+         (ts : list (NtSyntax.striple * NtSyntax.layout)),
+    Forall (fun x => NtSyntax.valid_triple (fst x) = true /\ NtSyntax.valid_layout (snd x) = true /\
+                     NtDom.C06_dom (fst x) (snd x) = true) ts ->
+    run_over_passes fa c thr (passes pyfloat (nt_reader allow) read_ttl gunzip unxz unzip rdf_parse o1 o2
+                                     (Str "nt") None (SRaw (NtSyntax.nt_doc ts)))
+    = Some (run_shapes fa c thr (nt_graph ts)).
+Proof. exact nt_text_to_graph. Qed.
+Print Assumptions C08_nt_text_to_graph.
+
+(** ... and over every partition of the document's lines *)
+Theorem C08_nt_text_channel_independent :
+  forall pyfloat allow read_ttl gunzip unxz unzip rdf_parse fa c thr (o1 o2 : porc)
+         (ts : list (NtSyntax.striple * NtSyntax.layout)),
+    let P := passes pyfloat (nt_reader allow) read_ttl gunzip unxz unzip rdf_parse in
+    Forall nt_ok_case ts -> Forall line_ok (nt_lines ts) ->
+    (forall cm lss stored,
+        List.concat lss = nt_lines ts -> cm_plain cm ->
+        Forall2 (stored_as gunzip unxz cm) (map render_lines lss) stored ->
+        run_over_passes fa c thr (P o1 o2 (Str "nt") cm (SFiles stored)) = Some (run_shapes fa c thr (nt_graph ts))) /\
+    (forall cm st,
+        cm_plain cm -> stored_as gunzip unxz cm (render_lines (nt_lines ts)) st ->
+        run_over_passes fa c thr (P o1 o2 (Str "nt") cm (SFile st)) = Some (run_shapes fa c thr (nt_graph ts))) /\
+    (forall archive lss,
+        List.concat lss = nt_lines ts -> archive_holds unzip archive lss ->
+        run_over_passes fa c thr (P o1 o2 (Str "nt") (Some c_ZIP) (SFile archive)) = Some (run_shapes fa c thr (nt_graph ts))) /\
+    (forall archives lsss,
+        List.concat (List.concat lsss) = nt_lines ts -> Forall2 (archive_holds unzip) archives lsss ->
+        run_over_passes fa c thr (P o1 o2 (Str "nt") (Some c_ZIP) (SFiles archives)) = Some (run_shapes fa c thr (nt_graph ts))).
+Proof. exact nt_text_channel_independent. Qed.
+Print Assumptions C08_nt_text_channel_independent.
+
+(** the same for TSV_SPO (reader modelled in C08; the multi-file form is [C08_tsv_channel_independent]) *)
+Theorem C08_tsv_text_to_graph :
+  forall pyfloat read_ttl gunzip unxz unzip rdf_parse fa read_nt c thr (o1 o2 : porc) g,
+    tsv_dom g = true -> Forall line_ok (map tsv_line_of g) ->
+    run_over_passes fa c thr (passes pyfloat read_nt read_ttl gunzip unxz unzip rdf_parse o1 o2 (Str "tsv_spo") None (SRaw (tsv_doc g)))
+    = Some (run_shapes fa c thr (kinded g)).
+Proof. exact tsv_text_to_graph. Qed.
+Print Assumptions C08_tsv_text_to_graph.
+
+Theorem C08_tsv_file_to_graph :
+  forall pyfloat read_ttl gunzip unxz unzip rdf_parse fa read_nt c thr (o1 o2 : porc) cm g st,
+    tsv_dom g = true -> Forall line_ok (map tsv_line_of g) -> cm_plain cm ->
+    stored_as gunzip unxz cm (tsv_doc g) st ->
+    run_over_passes fa c thr (passes pyfloat read_nt read_ttl gunzip unxz unzip rdf_parse o1 o2 (Str "tsv_spo") cm (SFile st))
+    = Some (run_shapes fa c thr (kinded g)).
+Proof. exact tsv_file_to_graph. Qed.
+Print Assumptions C08_tsv_file_to_graph.
+
+(** ** (h) TURTLE_ITER: C07 ; C08 ; pipeline.  For every document [d] of the
+    dialect inside [C07_dom] and every layout [ls] of it, the extraction over
+    the raw-string channel of the document's text is the extraction over the
+    triples [sem d] the document denotes. *)
+Theorem C08_turtle_iter_channel_is_C07 :
+  forall pyfloat read_nt gunzip unxz unzip rdf_parse o doc,
+    channel pyfloat read_nt ttl_reader gunzip unxz unzip rdf_parse o (Str "turtle_iter") None (SRaw doc)
+    = rd_of_ttl (TtlReader.read_ttl doc).
+Proof. exact ttl_chan_raw. Qed.
+Print Assumptions C08_turtle_iter_channel_is_C07.
+
+Theorem C08_turtle_iter_text_to_graph :
+  forall pyfloat read_nt gunzip unxz unzip rdf_parse fa c thr (o1 o2 : porc) ls d ts,
+    TtlSyntax.lays_out ls d -> TtlDomain.C07_dom ls d = true -> TtlSyntax.sem d = Some ts ->
+    run_over_passes fa c thr (passes pyfloat read_nt ttl_reader gunzip unxz unzip rdf_parse o1 o2
+                                     (Str "turtle_iter") None (SRaw (TtlSyntax.render_doc ls)))
+    = Some (run_shapes fa c thr ts).
+Proof. exact turtle_iter_text_to_graph. Qed.
+Print Assumptions C08_turtle_iter_text_to_graph.
+
+(** a single file (plain, gz, xz) holding complete lines is read exactly as
+    the raw string, for ANY lines: a line terminator does not show
+    ([_clean_line]) and blank lines are skipped without touching the state *)
+Theorem C08_turtle_iter_file_is_raw :
+  forall pyfloat read_nt gunzip unxz unzip rdf_parse o o' cm ls st,
+    cm_plain cm -> Forall line_ok ls -> stored_as gunzip unxz cm (render_lines ls) st ->
+    channel pyfloat read_nt ttl_reader gunzip unxz unzip rdf_parse o (Str "turtle_iter") cm (SFile st)
+    = channel pyfloat read_nt ttl_reader gunzip unxz unzip rdf_parse o' (Str "turtle_iter") None (SRaw (render_lines ls)).
+Proof. exact ttl_file_is_raw. Qed.
+Print Assumptions C08_turtle_iter_file_is_raw.
+
+Theorem C08_turtle_iter_file_to_graph :
+  forall pyfloat read_nt gunzip unxz unzip rdf_parse fa c thr (o1 o2 : porc) cm ls d ts st,
+    TtlSyntax.lays_out ls d -> TtlDomain.C07_dom ls d = true -> TtlSyntax.sem d = Some ts ->
+    cm_plain cm -> Forall line_ok (ttl_text_lines ls) ->
+    stored_as gunzip unxz cm (render_lines (ttl_text_lines ls)) st ->
+    run_over_passes fa c thr (passes pyfloat read_nt ttl_reader gunzip unxz unzip rdf_parse o1 o2 (Str "turtle_iter") cm (SFile st))
+    = Some (run_shapes fa c thr ts).
+Proof. exact turtle_iter_file_to_graph. Qed.
+Print Assumptions C08_turtle_iter_file_to_graph.
+
+(** several Turtle files are NOT a partition of one document: one fresh
+    reader per file (prefixes, base and an open statement do not carry over;
+    the end-of-input check applies per file).  What the channel delivers: *)
+Theorem C08_turtle_iter_files_are_documents :
+  forall pyfloat read_nt gunzip unxz unzip rdf_parse o cm lss stored,
+    cm_plain cm -> Forall (Forall line_ok) lss ->
+    Forall2 (stored_as gunzip unxz cm) (map render_lines lss) stored ->
+    rd_stream (channel pyfloat read_nt ttl_reader gunzip unxz unzip rdf_parse o (Str "turtle_iter") cm (SFiles stored))
+    = sconcat (map (fun ls => rd_stream (ttl_reader (filter nonblank ls))) lss).
+Proof. exact ttl_files_stream. Qed.
+Print Assumptions C08_turtle_iter_files_are_documents.
+
+(** ** (i) N-Triples against TURTLE_ITER *)
+Theorem C08_nt_vs_turtle_iter :
+  forall pyfloat allow gunzip unxz unzip rdf_parse fa c thr (o1 o2 o1' o2' : porc) ts ls d G,
+    Forall nt_ok_case ts ->
+    TtlSyntax.lays_out ls d -> TtlDomain.C07_dom ls d = true -> TtlSyntax.sem d = Some G ->
+    map erase_lex G = nt_graph ts ->
+    nt_run pyfloat allow gunzip unxz unzip rdf_parse fa c thr o1 o2 ts
+    = ttl_run pyfloat allow gunzip unxz unzip rdf_parse fa c thr o1' o2' ls.
+Proof. exact nt_vs_turtle_iter. Qed.
+Print Assumptions C08_nt_vs_turtle_iter.
+
+(** the same triples in a different order: with C09
+    ([C09_keys_permutation_invariant_valid]) both extractions succeed, same
+    classes, shape names, instance counts and key sets *)
+Theorem C08_nt_vs_turtle_iter_permuted :
+  forall pyfloat allow gunzip unxz unzip rdf_parse fa c thr (o1 o2 o1' o2' : porc) ts ls d G,
+    Forall nt_ok_case ts ->
+    TtlSyntax.lays_out ls d -> TtlDomain.C07_dom ls d = true -> TtlSyntax.sem d = Some G ->
+    Permutation (nt_graph ts) (map erase_lex G) ->
+    (r_cap c <= 0)%Z -> r_remove_empty c = false -> EndToEnd2.valid_input c (nt_graph ts) = true ->
+    exists ns shapes shapes',
+      nt_run pyfloat allow gunzip unxz unzip rdf_parse fa c thr o1 o2 ts = Some (inl (ns, shapes)) /\
+      ttl_run pyfloat allow gunzip unxz unzip rdf_parse fa c thr o1' o2' ls = Some (inl (ns, shapes')) /\
+      (forall cls, In cls (map Shexing.sh_class shapes) <-> In cls (map Shexing.sh_class shapes')) /\
+      forall sh sh', In sh shapes -> In sh' shapes' -> Shexing.sh_class sh = Shexing.sh_class sh' ->
+        Shexing.sh_name sh = Shexing.sh_name sh' /\ Shexing.sh_n sh = Shexing.sh_n sh' /\
+        forall key, In key (map (ShexKeys.skey (scfg_of c ns)) (Shexing.sh_stmts sh)) <->
+                    In key (map (ShexKeys.skey (scfg_of c ns)) (Shexing.sh_stmts sh')).
+Proof. exact nt_vs_turtle_iter_permuted. Qed.
+Print Assumptions C08_nt_vs_turtle_iter_permuted.
+
+(** binary64, any setting of remove_empty_shapes ([C09_keys_permutation_invariant_valid_any]) *)
+Theorem C08_nt_vs_turtle_iter_permuted_any :
+  forall pyfloat allow gunzip unxz unzip rdf_parse c thr (o1 o2 o1' o2' : porc) ts ls d G,
+    Forall nt_ok_case ts ->
+    TtlSyntax.lays_out ls d -> TtlDomain.C07_dom ls d = true -> TtlSyntax.sem d = Some G ->
+    Permutation (nt_graph ts) (map erase_lex G) ->
+    (r_cap c <= 0)%Z -> EndToEnd3.valid_input_le1 c (nt_graph ts) = true ->
+    Bin64Round.wf_frac thr -> fle BAlg thr (fone BAlg) = true -> (N.of_nat (List.length ts) < 2 ^ 53)%N ->
+    exists ns shapes shapes',
+      nt_run pyfloat allow gunzip unxz unzip rdf_parse BAlg c thr o1 o2 ts = Some (inl (ns, shapes)) /\
+      ttl_run pyfloat allow gunzip unxz unzip rdf_parse BAlg c thr o1' o2' ls = Some (inl (ns, shapes')) /\
+      (forall cls, In cls (map Shexing.sh_class shapes) <-> In cls (map Shexing.sh_class shapes')) /\
+      forall sh sh', In sh shapes -> In sh' shapes' -> Shexing.sh_class sh = Shexing.sh_class sh' ->
+        Shexing.sh_name sh = Shexing.sh_name sh' /\ Shexing.sh_n sh = Shexing.sh_n sh' /\
+        forall key, In key (map (ShexKeys.skey (scfg_of c ns)) (Shexing.sh_stmts sh)) <->
+                    In key (map (ShexKeys.skey (scfg_of c ns)) (Shexing.sh_stmts sh')).
+Proof. exact nt_vs_turtle_iter_permuted_any. Qed.
+Print Assumptions C08_nt_vs_turtle_iter_permuted_any.
+
+(** ** non-vacuity of (e)-(i): the model with both readers, no codec, no rdflib *)
+
+Definition rpasses := closed_passes no_float false no_codec no_codec no_unzip no_parse no_orc no_orc.
+Definition rchan := channel no_float (nt_reader false) ttl_reader no_codec no_codec no_unzip no_parse no_orc.
+
+Definition nic (s : string) : list NtSyntax.item := map NtSyntax.IChar (list_ascii_of_string s).
+Definition nlay (s1 s2 pd : string) (c : option (string * string)) : NtSyntax.layout :=
+  NtSyntax.Layout (Str s1) (Str s2) (Str pd) (match c with Some (w, t) => Some (Str w, Str t) | None => None end).
+Definition XSD_INT : str := Str "http://www.w3.org/2001/XMLSchema#integer".
+
+(** an N-Triples document: a typing triple, a tagged literal on a line with
+    doubled separators and a trailing comment, a blank node with a typed literal *)
+Definition nt_ex : list (NtSyntax.striple * NtSyntax.layout) :=
+  [ (NtSyntax.STriple (NtSyntax.NIri (Str "http://e/a")) c_RDF_TYPE (NtSyntax.ONode (NtSyntax.NIri (Str "http://e/C"))),
+     nlay " " " " " " None);
+    (NtSyntax.STriple (NtSyntax.NIri (Str "http://e/a")) (Str "http://e/p")
+                      (NtSyntax.OLit (nic "v #1") (NtSyntax.SufLang (Str "en"))),
+     nlay "  " " " " " (Some (" "%string, " a comment"%string)));
+    (NtSyntax.STriple (NtSyntax.NBn (Str "b1")) (Str "http://e/q") (NtSyntax.OLit (nic "5") (NtSyntax.SufType XSD_INT)),
+     nlay " " " " " " None) ].
+
+(** its three lines split 1 | 0 | 2 over three files *)
+Definition nt_lss : list (list str) := [firstn 1 (nt_lines nt_ex); []; skipn 1 (nt_lines nt_ex)].
+
+Definition shapes_found (r : option ((Tokens.nsdict * list Shexing.shape) + rerr)) : list (str * nat) :=
+  match r with
+  | Some (inl (_, l)) => map (fun s => (Shexing.sh_class s, List.length (Shexing.sh_stmts s))) l
+  | _ => []
+  end.
+
+Example C08_nt_text_inhabited :
+  Forall nt_ok_case nt_ex /\ Forall line_ok (nt_lines nt_ex) /\ List.concat nt_lss = nt_lines nt_ex
+  /\ run_over_passes BAlg ex_cfg ex_thr (rpasses (Str "nt") None (SRaw (NtSyntax.nt_doc nt_ex)))
+     = Some (run_shapes BAlg ex_cfg ex_thr (nt_graph nt_ex))
+  /\ run_over_passes BAlg ex_cfg ex_thr (rpasses (Str "nt") None (SFiles (map render_lines nt_lss)))
+     = Some (run_shapes BAlg ex_cfg ex_thr (nt_graph nt_ex))
+  /\ shapes_found (Some (run_shapes BAlg ex_cfg ex_thr (nt_graph nt_ex))) = [(Str "http://e/C", 2%nat)].
+Proof.
+  split; [repeat constructor; vm_compute; reflexivity|].
+  split; [apply lines_okb_ok; vm_compute; reflexivity|].
+  split; [reflexivity|]. split; [vm_compute; reflexivity|]. split; vm_compute; reflexivity.
+Qed.
+
+(** lines that are not statements: a blank line, a line with two tokens
+    (both counted as errors), and a line on which the reader raises
+    RuntimeError (C06-F3).  The streams agree; the error counter does not (the
+    raw-string line reader drops the blank line before the reader counts it:
+    1 against 2), which is why (a) is stated on [rd_stream]. *)
+Definition nt_bad_lines : list str :=
+  [ Str "<http://e/a> <http://e/p> <http://e/b> ."; Str "  "; Str "<http://e/a> <http://e/p> .";
+    Str "_:x <http://e/q> ""w"" ." ].
+Definition nt_raising_line : str := Str "<http://e/a> <http://e/p> ""^^"" .".
+
+Example C08_nt_any_lines_inhabited :
+  rd_stream (rchan (Str "nt") None (SFiles (map render_lines [firstn 2 nt_bad_lines; skipn 2 nt_bad_lines])))
+  = rd_stream (rchan (Str "nt") None (SRaw (render_lines nt_bad_lines)))
+  /\ (exists ms, rchan (Str "nt") None (SRaw (render_lines nt_bad_lines)) = inl (Res ms 2 1) /\ List.length ms = 2%nat)
+  /\ (exists ms, rchan (Str "nt") None (SFile (render_lines nt_bad_lines)) = inl (Res ms 2 2))
+  /\ rd_stream (rchan (Str "nt") None (SFiles (map render_lines [nt_bad_lines; [nt_raising_line]; nt_bad_lines]))) = inr CERuntime
+  /\ rd_stream (rchan (Str "nt") None (SRaw (render_lines (nt_bad_lines ++ [nt_raising_line] ++ nt_bad_lines)))) = inr CERuntime.
+Proof.
+  split; [vm_compute; reflexivity|]. split; [eexists; split; vm_compute; reflexivity|].
+  split; [eexists; vm_compute; reflexivity|]. split; vm_compute; reflexivity.
+Qed.
+
+(** a Turtle document denoting the same triples: prefixes, [a], [;], a
+    whole-line and a trailing comment, a statement cut over two lines *)
+Definition tsp : str := Str " ".
+Definition ttoks (ts : list TtlSyntax.atok) : TtlSyntax.line := TtlSyntax.LToks [] (map (fun t => (t, tsp)) ts) None.
+Definition tprefix (p ns : string) : TtlSyntax.line :=
+  TtlSyntax.LDir [] (TtlSyntax.DPrefix (Str p) (TtlSyntax.IAbs (Str ns))) [tsp; tsp; tsp; []] None.
+Definition texr (l : string) : TtlSyntax.iri_ref := TtlSyntax.IPre (Str "ex") (Str l).
+Definition t_xsd_int : TtlSyntax.iri_ref := TtlSyntax.IPre (Str "xsd") (Str "integer").
+
+Definition ttl_g_a : TtlSyntax.group :=
+  TtlSyntax.Group (TtlSyntax.SIri (texr "a"))
+    [(TtlSyntax.PA, [TtlSyntax.OIri (texr "C")]);
+     (TtlSyntax.PIri (texr "p"), [TtlSyntax.OLit (Str "v #1") (TtlSyntax.LLang (Str "en"))])].
+Definition ttl_g_b : TtlSyntax.group :=
+  TtlSyntax.Group (TtlSyntax.SBn (Str "b1"))
+    [(TtlSyntax.PIri (TtlSyntax.IAbs (Str "http://e/q")), [TtlSyntax.OLit (Str "5") (TtlSyntax.LTyped t_xsd_int)])].
+Definition ttl_dirs : list TtlSyntax.item :=
+  [ TtlSyntax.IDir (TtlSyntax.DPrefix (Str "ex") (TtlSyntax.IAbs (Str "http://e/")));
+    TtlSyntax.IDir (TtlSyntax.DPrefix (Str "xsd") (TtlSyntax.IAbs TtlSyntax.xsd_ns)) ].
+Definition ttl_dir_lines : list TtlSyntax.line :=
+  [ tprefix "ex" "http://e/"; tprefix "xsd" "http://www.w3.org/2001/XMLSchema#" ].
+Definition ttl_a_lines : list TtlSyntax.line :=
+  [ TtlSyntax.LToks [] [] (Some (Str " a comment"));
+    ttoks [TtlSyntax.ASubj (TtlSyntax.SIri (texr "a")); TtlSyntax.APred TtlSyntax.PA; TtlSyntax.AObj (TtlSyntax.OIri (texr "C"));
+           TtlSyntax.ASemi];
+    TtlSyntax.LToks (Str "  ")
+      [(TtlSyntax.APred (TtlSyntax.PIri (texr "p")), tsp);
+       (TtlSyntax.AObj (TtlSyntax.OLit (Str "v #1") (TtlSyntax.LLang (Str "en"))), tsp); (TtlSyntax.ADot, tsp)]
+      (Some (Str " trailing")) ].
+Definition ttl_b_lines : list TtlSyntax.line :=
+  [ ttoks [TtlSyntax.ASubj (TtlSyntax.SBn (Str "b1")); TtlSyntax.APred (TtlSyntax.PIri (TtlSyntax.IAbs (Str "http://e/q")))];
+    ttoks [TtlSyntax.AObj (TtlSyntax.OLit (Str "5") (TtlSyntax.LTyped t_xsd_int)); TtlSyntax.ADot] ].
+
+Definition ttl_ex : TtlSyntax.doc := ttl_dirs ++ [TtlSyntax.IGrp ttl_g_a; TtlSyntax.IGrp ttl_g_b].
+Definition ttl_ex_lines : list TtlSyntax.line := ttl_dir_lines ++ ttl_a_lines ++ ttl_b_lines.
+(** the same statements, the blank-node group first *)
+Definition ttl_ex2 : TtlSyntax.doc := ttl_dirs ++ [TtlSyntax.IGrp ttl_g_b; TtlSyntax.IGrp ttl_g_a].
+Definition ttl_ex2_lines : list TtlSyntax.line := ttl_dir_lines ++ ttl_b_lines ++ ttl_a_lines.
+
+Example C08_turtle_iter_text_inhabited :
+  TtlSyntax.lays_out ttl_ex_lines ttl_ex /\ TtlDomain.C07_dom ttl_ex_lines ttl_ex = true
+  /\ Forall line_ok (ttl_text_lines ttl_ex_lines)
+  /\ exists G, TtlSyntax.sem ttl_ex = Some G /\ List.length G = 3%nat
+     /\ run_over_passes BAlg ex_cfg ex_thr (rpasses (Str "turtle_iter") None (SRaw (TtlSyntax.render_doc ttl_ex_lines)))
+        = Some (run_shapes BAlg ex_cfg ex_thr G)
+     /\ run_over_passes BAlg ex_cfg ex_thr
+          (rpasses (Str "turtle_iter") None (SFile (render_lines (ttl_text_lines ttl_ex_lines))))
+        = Some (run_shapes BAlg ex_cfg ex_thr G)
+     /\ shapes_found (Some (run_shapes BAlg ex_cfg ex_thr G)) = [(Str "http://e/C", 2%nat)].
+Proof.
+  split; [repeat split; vm_compute; reflexivity|]. split; [vm_compute; reflexivity|].
+  split; [apply lines_okb_ok; vm_compute; reflexivity|].
+  eexists. split; [vm_compute; reflexivity|]. split; [reflexivity|].
+  split; [vm_compute; reflexivity|]. split; vm_compute; reflexivity.
+Qed.
+
+(** C08-T1 (by design of the multi-file yielder, stated here so that nobody
+    reads (a) as covering TURTLE_ITER): the two @prefix lines in a first file,
+    the statements in a second one.  The single raw string delivers the three
+    triples; the two files end in ValueError (undeclared prefix). *)
+Definition ttl_split : list (list str) :=
+  [ttl_text_lines ttl_dir_lines; ttl_text_lines (ttl_a_lines ++ ttl_b_lines)].
+
+Lemma C08_turtle_iter_partition_refuted :
+  exists lss,
+    Forall (Forall line_ok) lss /\
+    Forall2 (stored_as no_codec no_codec None) (map render_lines lss) (map render_lines lss) /\
+    rd_stream (rchan (Str "turtle_iter") None (SFiles (map render_lines lss)))
+    <> rd_stream (rchan (Str "turtle_iter") None (SRaw (render_lines (List.concat lss)))).
+Proof.
+  exists ttl_split. split; [|split].
+  - repeat constructor; apply line_okb_ok; vm_compute; reflexivity.
+  - repeat constructor.
+  - vm_compute. discriminate.
+Qed.
+
+Example C08_turtle_iter_partition_witness :
+  List.concat ttl_split = ttl_text_lines ttl_ex_lines
+  /\ rd_stream (rchan (Str "turtle_iter") None (SFiles (map render_lines ttl_split))) = inr CEValue
+  /\ exists ms, rd_stream (rchan (Str "turtle_iter") None (SRaw (render_lines (List.concat ttl_split)))) = inl ms
+                /\ List.length ms = 3%nat.
+Proof. split; [reflexivity|]. split; [vm_compute; reflexivity|]. eexists. split; vm_compute; reflexivity. Qed.
+
+(** the N-Triples and the Turtle document denote the same triples up to
+    lexical forms, in the same order / in another order: every hypothesis of
+    (i) holds *)
+Lemma perm_rot3 {A} (a b c : A) : Permutation [a; b; c] [c; a; b].
+Proof. apply Permutation_sym. change [a; b; c] with ([a; b] ++ [c]). apply Permutation_cons_append. Qed.
+
+Example C08_nt_vs_turtle_iter_inhabited :
+  (exists G, TtlSyntax.sem ttl_ex = Some G /\ map erase_lex G = nt_graph nt_ex)
+  /\ TtlSyntax.lays_out ttl_ex2_lines ttl_ex2 /\ TtlDomain.C07_dom ttl_ex2_lines ttl_ex2 = true
+  /\ (exists G, TtlSyntax.sem ttl_ex2 = Some G /\ Permutation (nt_graph nt_ex) (map erase_lex G)
+                /\ map erase_lex G <> nt_graph nt_ex)
+  /\ (r_cap ex_cfg <= 0)%Z /\ EndToEnd3.valid_input_le1 ex_cfg (nt_graph nt_ex) = true
+  /\ Bin64Round.wf_frac ex_thr /\ fle BAlg ex_thr (fone BAlg) = true /\ (N.of_nat (List.length nt_ex) < 2 ^ 53)%N
+  /\ shapes_found (ttl_run no_float false no_codec no_codec no_unzip no_parse BAlg ex_cfg ex_thr no_orc no_orc ttl_ex2_lines)
+     = [(Str "http://e/C", 2%nat)].
+Proof.
+  split; [eexists; split; vm_compute; reflexivity|].
+  split; [repeat split; vm_compute; reflexivity|]. split; [vm_compute; reflexivity|].
+  split.
+  { eexists. split; [vm_compute; reflexivity|]. split.
+    - vm_compute. apply perm_rot3.
+    - vm_compute. discriminate. }
+  split; [intros H; discriminate H|]. split; [vm_compute; reflexivity|].
+  split; [vm_compute; split; [discriminate | reflexivity]|].
+  split; [vm_compute; reflexivity|]. split; vm_compute; reflexivity.
+Qed.
